@@ -166,14 +166,17 @@ def opEcache (args : List String) : String :=
 
 /-- `dialog <linehex>…`: sequential UCI dialogue -/
 def opDialog (args : List String) : String :=
-  let r := args.foldl (fun (acc : Option (GameSt × List String)) lh =>
+  -- `ood`: some `position` command of the dialogue is malformed (unknown kind, short or broken FEN, a move that is rejected, no
+  -- arguments).  "Garbage inside a position command" is outside the domain of the dialogue properties: such dialogues are executed
+  -- but not judged (`s.dom=0`).
+  let r := args.foldl (fun (acc : Option (GameSt × List String × Bool)) lh =>
     match acc with
     | none => none
-    | some (st, outs) =>
+    | some (st, outs, ood) =>
       let line := bytesToString (unhexBytes lh)
       let toks := removePrefixGarbage (((line.splitOn " ").filter (· ≠ "")).map stringToBytes)
       match toks with
-      | [] => some (st, outs)
+      | [] => some (st, outs, ood)
       | c :: rest =>
         let cmd := bytesToString c
         let restS := rest.map bytesToString
@@ -196,12 +199,13 @@ def opDialog (args : List String) : String :=
             | _ => (.fenBroken, true)
           | _ => (.other, true)
         let goMsgs := if cmd = "go" then (match parseGo atoiFull rest with | some (_, m) => m.length | none => 0) else 0
+        let bad := cmd = "position" && (!movesOk || (match pa with | .startpos => false | .fenOk => false | _ => true))
         match dialogStep st cmd pa movesOk goMsgs with
-        | some (st', evs) => some (st', outs ++ evs.map Ev.str)
-        | none => none) (some (({} : GameSt), []))
+        | some (st', evs) => some (st', outs ++ evs.map Ev.str, ood || bad)
+        | none => none) (some (({} : GameSt), [], false))
   match r with
-  | some (_, outs) => s!"m.out={if outs.isEmpty then "-" else "".intercalate outs}"
-  | none => "m.out=PANIC"
+  | some (_, outs, ood) => s!"{if ood then "s.dom=0 " else ""}m.out={if outs.isEmpty then "-" else "".intercalate outs}"
+  | none => "s.dom=0 m.out=PANIC"
 where
   setupGameD (posArg : String) (moves : List String) : Bool :=
     match parsePos posArg with
